@@ -24,12 +24,12 @@ type runOpts struct {
 }
 
 type FuncResult struct {
-	Fn    string
-	Errs  []string
-	Obls  []*Obligation
-	Paths int
+	Fn         string
+	Errs       []string
+	Obls       []*Obligation
+	Paths      int
 	Abstracted []string
-	Mode  string
+	Mode       string
 	GenSeconds float64
 }
 
@@ -238,4 +238,3 @@ func cmdVerify(args []string) {
 		os.Exit(1)
 	}
 }
-
